@@ -1,6 +1,7 @@
 """World A - BacktestSim: runs the real FlumineSimulation over in-memory stream files with scripted
 agents; observers are attached by wrapping flumine methods inside the checker process."""
 import io
+import os
 import json
 import sys
 import traceback
@@ -53,7 +54,19 @@ def _dispatch(hook, *args):
             fn(*args)
         except core.SimulationAbort:
             raise
-        except Exception:
+        except Exception as e:
+            # an exception whose innermost frame is flumine code - the oracle called a flumine API (a blotter view, a
+            # property of an order) and THAT raised - is a failure of the system under test seen by the monitor's
+            # property, not a harness error
+            tb = traceback.extract_tb(e.__traceback__)
+            inner = tb[-1] if tb else None
+            owner = getattr(getattr(fn, "__self__", None), "P", None)
+            if inner is not None and os.sep + "flumine" + os.sep in inner.filename and os.sep + "simkit" + os.sep not in inner.filename and owner:
+                key = (owner, inner.filename, inner.name)
+                if key not in run._obs_crashes:
+                    run._obs_crashes.add(key)
+                    run.res.violate(owner, "%s.sut-crash" % owner, "observed-api-raised:%s:%s" % (os.path.basename(inner.filename), inner.name), exc="%s: %s" % (type(e).__name__, e), hook=hook)
+                continue
             if run.harness_error is None:
                 run.harness_error = "hook %s: %s" % (hook, traceback.format_exc())
 
@@ -164,9 +177,16 @@ def _install_wrappers():
             return orig_handler(self, pkg)
         _dispatch("exec_before", pkg)
         try:
-            return orig_handler(self, pkg)
-        finally:
-            _dispatch("exec_after", pkg)
+            r = orig_handler(self, pkg)
+        except core.SimulationAbort:
+            raise
+        except Exception:
+            # the execution handler itself crashed: that crash is the finding (owned through SITE_OWNERS); the
+            # per-package oracles are not run on the half-processed package
+            CUR.res.probes["exec.handler_raised"] += 1
+            raise
+        _dispatch("exec_after", pkg)
+        return r
 
     SE.handler = handler
 
@@ -548,7 +568,8 @@ def make_agent_class():
             except RuntimeError as e:
                 if str(e) == "scripted":
                     raise
-                run.note_harness(traceback.format_exc())
+                # (RecursionError is a RuntimeError) raised inside flumine while serving the request -> SUT, else harness
+                run.note_sut_exception(sys.exc_info())
             except _F["FlumineException"]:
                 raise
             except core.SimulationAbort:
@@ -740,6 +761,7 @@ class BacktestRun:
         self.held = {}  # market_id -> index of the update whose book flumine's Market object holds
         self.now_ms = None  # simulated time (publish time of the update being processed)
         self.markets_by_id = {m["id"]: m for m in scenario["markets"]}
+        self._obs_crashes = set()
         if any(m.get("hc") for m in scenario["markets"]):
             self.res.probes["scenario.handicap_market"] += 1
         if any(m.get("rk") for m in scenario["markets"]):
